@@ -158,6 +158,8 @@ class SimTransport(Transport):
             self.ae_order.append(peer)      # iteration order of the leader's send loop over its set of peers
         if peer is None or (self.me, peer) not in self.net.up:
             return False
+        if self.cluster.nodes[self.me].dead:
+            return True
         data = sopickle.dumps(message)
         meta = None
         if isinstance(message, dict) and message.get('type') == 'append_entries' and message.get('serialized'):
@@ -181,6 +183,9 @@ class Recorder(object):
         self.step_obs = []
 
     def on_cb(self, cid, res, err):
+        n = _Ctx.node
+        if n is not None and n.dead:
+            return          # the process that would run this callback was killed
         self.cbs.setdefault(cid, []).append([_absres(res), int(err) if err is not None else -1])
         self.step_obs.append({'k': 'cb', 'cid': cid, 'res': _absres(res), 'err': int(err) if err is not None else -1})
 
@@ -254,6 +259,9 @@ class SimNode(object):
         self.send_cut = None
         self.sae_frame, self.sae_line, self.sae_reads, self.sae_cut_done = None, 0, 0, False
         self.cut_hits = 0
+        self.dead = False         # killed in the middle of the current step (zombie until the step returns)
+        self.writes = 0           # primitive storage writes of the current step
+        self.kill_at = None
         self.obj = None
         self.tr = None
         self.alive = False
@@ -286,6 +294,11 @@ class Cluster(object):
             self.workdir = tempfile.mkdtemp(prefix='verif_sim_')
             self._own_workdir = True
         _Ctx.cluster = self
+        if cfg.get('journal') or cfg.get('dump'):
+            from . import crashfs
+            crashfs.State.node = lambda: _Ctx.node
+            crashfs.State.on_kill = self._on_kill
+            crashfs.install()
         for nid in self.voters:
             self._start(nid, self.voters, voter=True)
         for nid in self.observers:
@@ -344,14 +357,16 @@ class Cluster(object):
             _Ctx.node = None
         return sn
 
-    def _stop(self, nid):
+    def _stop(self, nid, keep_files=False):
         """the process dies: connections gone (peers notice on their own), memory gone"""
         sn = self.nodes[nid]
         sn.alive = False
+        sn.dead = True            # whatever _doDestroy would flush is not written
         try:
             sn.obj._doDestroy()
         except Exception:
             pass
+        sn.dead = False
         sn.obj = None
         sn.tr = None
         self.net.tr.pop(nid, None)
@@ -424,12 +439,34 @@ class Cluster(object):
             return act[1] in N and not N[act[1]].alive and N[act[1]].voter and not self.cfg.get('journal')
         if k == 'Stop':
             return act[1] in N and N[act[1]].alive
+        if k == 'Crash':
+            return act[1] in N and N[act[1]].alive and bool(self.cfg.get('journal'))
+        if k == 'KillAt':
+            return bool(self.cfg.get('journal')) and self.applicable(tuple(act[3])) and self._actor(act[3]) == act[1]
+        if k == 'Restart':
+            return act[1] in N and not N[act[1]].alive and bool(self.cfg.get('journal')) and N[act[1]].generation > 0
         return False
 
-    def step(self, act):
+    def _on_kill(self, sn):
+        o = sn.obj
+        g = lambda name: getattr(o, '_SyncObj__' + name)
+        self._atkill = {'n': sn.id, 'hist': [[int(p), c, int(v)] for (p, c, v) in getattr(o, 'hist', [])],
+                        'log': [self.abs_entry(e) for e in g('raftLog')[:]], 'commit': int(g('raftCommitIndex')),
+                        'term': int(g('raftCurrentTerm'))}
+
+    def _actor(self, act):
+        """the node whose code runs in this action"""
+        if act[0] in ('Tick', 'Submit', 'Notice', 'Compact'):
+            return act[1]
+        if act[0] == 'Deliver':
+            return act[2]
+        return None
+
+    def step(self, act, _inner=False):
         """Execute one action on the real objects. Returns the trace record (dict)."""
         k = act[0]
-        self.rec.step_obs = []
+        if not _inner:
+            self.rec.step_obs = []
         node = None
         if k == 'Tick':
             node = self.nodes[act[1]]
@@ -482,8 +519,29 @@ class Cluster(object):
             self._start(act[1], list(act[2]), voter=True)
         elif k == 'Stop':
             self._stop(act[1])
+        elif k == 'Crash':
+            self._stop(act[1], keep_files=True)
+        elif k == 'KillAt':
+            # run the inner action; the process dies at its k-th primitive storage write (or, if the step
+            # performs fewer writes, right after the step)
+            sn = self.nodes[act[1]]
+            sn.kill_at = int(act[2])
+            saved = self.rec.step_obs
+            try:
+                self.step(tuple(act[3]), _inner=True)
+            finally:
+                sn.kill_at = None
+            if not sn.dead and sn.obj is not None:
+                self._on_kill(sn)     # fewer writes than k: the process completed the step and died right after it
+            self._stop(act[1], keep_files=True)
+            sn.dead = False
+        elif k == 'Restart':
+            sn = self.nodes[act[1]]
+            self._start(act[1], self.voters if sn.voter else self.voters, voter=sn.voter)
         else:
             raise ValueError(act)
+        if _inner:
+            return None
         return self._record(act)
 
     def _hello(self, i, j):
@@ -511,12 +569,15 @@ class Cluster(object):
         node.sae_frame, node.sae_line, node.sae_reads, node.sae_cut_done = None, 0, 0, False
         if node.tr is not None:
             node.tr.ae_order = []
+        node.writes = 0
         self._stepping = node
         if where != 'tick':
             node.send_cut = DEFAULT_CUT
         try:
             fn()
         except Exception as e:      # what the auto-tick thread would log and survive
+            if node.dead:
+                return
             self.rec.exc.append([node.id, where, type(e).__name__])
             self.rec.step_obs.append({'k': 'exc', 'n': node.id, 'where': where, 'type': type(e).__name__})
         finally:
@@ -630,6 +691,8 @@ class Cluster(object):
     def project_node(self, sn):
         o = sn.obj
         if o is None or not sn.alive:
+            if self.cfg.get('journal') and sn.generation > 0:
+                return {'alive': False, 'disk': self.project_disk(sn)}
             return {'alive': False}
         g = lambda name: getattr(o, '_SyncObj__' + name)
         log = g('raftLog')
@@ -692,6 +755,14 @@ class Cluster(object):
         }
         rt = g('recvTransmission')
         st['rtLen'] = len(rt)
+        if self.cfg.get('journal'):
+            from . import crashfs
+            meta = crashfs.read_meta(os.path.join(self.workdir, sn.id + '.journal.meta'))
+            st['metaCommit'] = int(meta.get('raftCommitIndex', 1))
+            st['metaTerm'] = int(meta.get('currentTerm', 0))
+            st['metaVote'] = meta.get('votedForNodeId') or NIL
+        else:
+            st['metaCommit'], st['metaTerm'], st['metaVote'] = 1, 0, NIL
         st['rocnt'] = int(tr.ro_counter)
         st['roid'] = {oid: int(n.id) for oid, n in tr.ro_ids.items()}
         st.update(self._project_serializer(sn))
@@ -704,6 +775,30 @@ class Cluster(object):
         except Exception:
             st['names'] = NIL
         return st
+
+    def project_disk(self, sn):
+        """what a restart of this node will find on disk (read-only)"""
+        from . import crashfs
+        jpath = os.path.join(self.workdir, sn.id + '.journal')
+        ents = crashfs.read_journal(jpath)
+        jlog = []
+        torn = False
+        for e in (ents or []):
+            if e is None:
+                torn = True
+                break
+            jlog.append(self.abs_entry(e))
+        meta = crashfs.read_meta(jpath + '.meta')
+        dump = 'none'
+        if self.cfg.get('dump'):
+            dpath = os.path.join(self.workdir, sn.id + '.dump')
+            if os.path.isfile(dpath):
+                with open(dpath, 'rb') as f:
+                    raw = f.read()
+                bi = self._blob_info(raw, sn)
+                dump = bi['sid'] if bi['ok'] else 'garbage'
+        return {'jlog': jlog, 'torn': torn, 'meta': int(meta.get('raftCommitIndex', 1)), 'dump': dump,
+                'term': int(meta.get('currentTerm', 0)), 'votedFor': meta.get('votedForNodeId') or NIL}
 
     # -- snapshots ---------------------------------------------------------------------------------
     def _ser(self, sn):
@@ -866,6 +961,9 @@ class Cluster(object):
         if self.__dict__.get('_newsnaps'):
             rec['newsnaps'] = self._newsnaps
             self._newsnaps = []
+        if self.__dict__.get('_atkill'):
+            rec['atkill'] = self._atkill
+            self._atkill = None
         stn = self.__dict__.get('_stepping')
         if stn is not None and stn.tr is not None and len(stn.tr.ae_order) > 1:
             rec['ord'] = list(stn.tr.ae_order)
